@@ -299,6 +299,9 @@ var c16Numbers = []sarg{
 	{src: "(1000000000000000 * 1000000000000000)", class: "number", num: 1e30}, {src: "(0 / 0)", class: "number", num: math.NaN()},
 	{src: "(1 / 0)", class: "number", num: math.Inf(1)}, {src: "(-1 / 0)", class: "number", num: math.Inf(-1)}, {src: "9223372036854775807", class: "number", num: 9223372036854775807},
 	{src: "0.1", class: "number", num: 0.1}, {src: "16777217", class: "number", num: 16777217},
+	{src: "16777215", class: "number", num: 16777215}, {src: "-8388607.5", class: "number", num: -8388607.5}, {src: "32767", class: "number", num: 32767}, {src: "-32768", class: "number", num: -32768},
+	{src: "2147483647", class: "number", num: 2147483647}, {src: "-2147483648", class: "number", num: -2147483648}, {src: "2147483648", class: "number", num: 2147483648}, {src: "32768", class: "number", num: 32768},
+	{src: "128", class: "number", num: 128}, {src: "9223372036854775808", class: "number", num: 9223372036854775808}, {src: "-9223372036854775808", class: "number", num: -9223372036854775808},
 }
 var c16Others = []sarg{
 	{src: "true", class: "boolean", b: true}, {src: "false", class: "boolean", b: false},
